@@ -1,4 +1,5 @@
 """Shared workload for C06 (cassette round trip) and C14 (every cassette image written is well formed)."""
+import os
 from vlib import mediamon, files as G
 from vlib.ref import tape as RT
 from vlib.core import rng
@@ -96,10 +97,10 @@ def _run_case(case, ctx):
                 try:
                     mid = c.list_files()
                     ctx.mon("reader.list_files.same-object")
-                    if not compare_listing(ctx, "C06", "tape-roundtrip", "own.same-object", mid, specs[:j + 1], wit):
+                    if not compare_listing(ctx, "C09" if ctx.prop == "C09" else "C06", "tape-roundtrip", "own.same-object", mid, specs[:j + 1], wit):
                         return
                 except Exception as e:
-                    ctx.violation("tape-roundtrip", "own.same-object", "READER-RAISED:%s" % type(e).__name__, dict(wit, error=str(e)[:100]), prop="C06")
+                    ctx.violation("tape-roundtrip", "own.same-object", "READER-RAISED:%s" % type(e).__name__, dict(wit, error=str(e)[:100]), prop="C09" if ctx.prop == "C09" else "C06")
                     return
             else:
                 nonempty_so_far = False
@@ -128,6 +129,24 @@ def _run_case(case, ctx):
         ctx.violation("tape-roundtrip", form, "READER-RAISED:%s" % type(e).__name__, dict(wit, error=str(e)[:100]), prop="C06")
         return
     ok = compare_listing(ctx, "C06", "tape-roundtrip", form, listed, specs, wit)
+    if ok and specs and not any(len(s["data"]) == 0 for s in specs):
+        # the same bytes as a host file, opened the way file_util.py --list opens them (container sniffing included)
+        import tempfile
+        from cocoasm.virtualfiles.virtual_file import VirtualFile
+        from cocoasm.virtualfiles.source_file import SourceFile, SourceFileType
+        fd, path = tempfile.mkstemp(suffix=".cas", dir=os.environ.get("VERIF_WORK"))
+        try:
+            with os.fdopen(fd, "wb") as fh:
+                fh.write(written)
+            vf = VirtualFile(SourceFile(path, file_type=SourceFileType.BINARY))
+            vf.open_virtual_file()
+            ctx.mon("reader.host-file-listing")
+            ok = compare_listing(ctx, "C06", "tape-roundtrip", form + ".host-file", vf.list_files(), specs, wit)
+        except Exception as e:
+            ctx.violation("tape-roundtrip", form + ".host-file", "READER-RAISED:%s" % type(e).__name__, dict(wit, error=str(e)[:100]), prop="C06")
+            ok = False
+        finally:
+            os.remove(path)
     if ok and listed:
         # second generation: the files just listed are themselves a list of files - write them to a new tape and list again
         # (what a tape-to-tape copy and --append do); the reference parser judges the second tape too
